@@ -4,7 +4,7 @@
 //   - for every given parameter k the symmetric difference between that MPD's facts and the facts of the MPD served for
 //     the same URL without k at the same instant ("ind"; for k = periods Period by Period against the single Period).
 //
-// Ground truth in the "cfg" events: the configuration as constructed here, the request host and path parts, and the
+// Ground truth in the "hdr" events: the configuration as constructed here, the request host and path parts, and the
 // driver's own reading of the VoD MPD file (AdaptationSets, MPD@id, UTCTiming elements) and of the VoD segments
 // (shortest / longest video segment, from the asset generator or an independent parse).
 package x01
@@ -18,9 +18,13 @@ import (
 	"math/rand"
 	"os"
 	"path/filepath"
+	"regexp"
 	"sort"
 	"strconv"
 	"strings"
+	"sync"
+
+	"github.com/Dash-Industry-Forum/livesim2/cmd/livesim2/app"
 
 	"verifharness/drive/tl"
 	"verifharness/srv"
@@ -46,6 +50,7 @@ type conc struct {
 	Tsbd       int      `json:"tsbd"`
 	Mup        int      `json:"mup"`
 	Spd        int      `json:"spd"`
+	Snr        int      `json:"snr"`
 	Start      int      `json:"start"`
 	Startkey   string   `json:"startkey"`
 	Startrel   int      `json:"startrel"`
@@ -67,7 +72,7 @@ type conc struct {
 }
 
 func noCfg() conc {
-	return conc{Tsbd: -1, Mup: -1, Spd: -1, Start: -1, Startkey: "start", Ltgt: -1, Patch: -1, Utc: []string{}, Stpp: []string{}, Wvtt: []string{}}
+	return conc{Tsbd: -1, Mup: -1, Spd: -1, Snr: -2, Start: -1, Startkey: "start", Ltgt: -1, Patch: -1, Utc: []string{}, Stpp: []string{}, Wvtt: []string{}}
 }
 
 // vodAsset is one (asset, VoD MPD) the configurations are applied to.
@@ -145,6 +150,20 @@ func concretise(r *rand.Rand, p part, a *vodAsset, t1s int64, c *conc, query *[]
 			return "", bad
 		}
 		return num(c.Spd), nil
+	case "snr":
+		switch p.C {
+		case "0":
+			c.Snr = 0
+		case "1":
+			c.Snr = 1
+		case "typ":
+			c.Snr = rint(r, 2, 100000)
+		case "m1":
+			c.Snr = -1
+		default:
+			return "", bad
+		}
+		return num(c.Snr), nil
 	case "start", "ast":
 		switch p.C {
 		case "1":
@@ -312,6 +331,13 @@ func concretise(r *rand.Rand, p part, a *vodAsset, t1s int64, c *conc, query *[]
 	case "continuous":
 		c.Continuous = true
 		return "continuous_1", nil
+	case "drm":
+		pk, ok := drmPkgs[p.C]
+		if !ok {
+			return "", bad
+		}
+		c.Drm = pk.name
+		return "drm_" + pk.name, nil
 	case "eccp":
 		if p.C != "cenc" && p.C != "cbcs" {
 			return "", bad
@@ -320,6 +346,64 @@ func concretise(r *rand.Rand, p part, a *vodAsset, t1s int64, c *conc, query *[]
 		return "eccp_" + p.C, nil
 	}
 	return "", fmt.Errorf("unknown key %s", p.K)
+}
+
+// drmPkg is a package of the repository's test DRM configuration, read by the driver itself.
+type drmPkg struct {
+	name   string
+	scheme string // commonEncryptionScheme of its CPIX content keys
+}
+
+var drmPkgs = map[string]drmPkg{}
+
+var cpixSchemeRe = regexp.MustCompile(`commonEncryptionScheme="([a-z0-9]+)"`)
+
+// loadDrmPkgs reads pkg/drm/testdata/drm_config_test.json: value class k1 / k2 = first / second package.
+func loadDrmPkgs() (string, error) {
+	dir := filepath.Join(srv.RepoRoot(), "pkg", "drm", "testdata")
+	cfgFile := filepath.Join(dir, "drm_config_test.json")
+	data, err := os.ReadFile(cfgFile)
+	if err != nil {
+		return "", err
+	}
+	var cfg struct {
+		Packages []struct {
+			Name     string `json:"name"`
+			CpixFile string `json:"cpixFile"`
+		} `json:"packages"`
+	}
+	if err := json.Unmarshal(data, &cfg); err != nil {
+		return "", err
+	}
+	for i, p := range cfg.Packages {
+		cp, err := os.ReadFile(filepath.Join(dir, p.CpixFile))
+		if err != nil {
+			return "", err
+		}
+		schemes := map[string]bool{}
+		for _, m := range cpixSchemeRe.FindAllSubmatch(cp, -1) {
+			schemes[string(m[1])] = true
+		}
+		if len(schemes) != 1 {
+			return "", fmt.Errorf("CPIX %s: %d encryption schemes", p.CpixFile, len(schemes))
+		}
+		for sch := range schemes {
+			drmPkgs[fmt.Sprintf("k%d", i+1)] = drmPkg{p.Name, sch}
+		}
+	}
+	if len(drmPkgs) < 2 {
+		return "", fmt.Errorf("%s: fewer than 2 packages", cfgFile)
+	}
+	return cfgFile, nil
+}
+
+func drmScheme(name string) string {
+	for _, p := range drmPkgs {
+		if p.name == name {
+			return p.scheme
+		}
+	}
+	return ""
 }
 
 func modePart(mode string) string {
@@ -571,6 +655,7 @@ func Main(args []string) error {
 	sigcls := fs.String("sigcls", "", "JSON array of the fact classes the value clauses read")
 	instants := fs.Int("instants", 2, "request instants per configuration")
 	probe := fs.String("probe", "", "semicolon-separated URLs: print MPD and facts")
+	workers := fs.Int("workers", 4, "goroutines fetching MPDs")
 	_ = fs.Parse(args)
 	if *work == "" {
 		return fmt.Errorf("-work required")
@@ -583,6 +668,14 @@ func Main(args []string) error {
 	env, err := tl.Setup(vod, false)
 	if err != nil {
 		return err
+	}
+	drmCfgFile, err := loadDrmPkgs()
+	if err != nil {
+		return err
+	}
+	drmSrv, err := srv.New(vod, func(c *app.ServerConfig) { c.DrmCfgFile = drmCfgFile })
+	if err != nil {
+		return fmt.Errorf("server with DRM configuration: %w", err)
 	}
 	if *probe != "" {
 		for _, u := range strings.Split(*probe, ";") {
@@ -721,8 +814,14 @@ func Main(args []string) error {
 		if f, ok := cache[u]; ok {
 			return f
 		}
-		nreq++
-		r := env.S.Get(u)
+		panic("x01: URL not prefetched: " + u)
+	}
+	get := func(u string, a *vodAsset, drm bool) *fetched {
+		s := env.S
+		if drm {
+			s = drmSrv // every request of a configuration with drm_ (also the one without the key) goes to the DRM-configured server
+		}
+		r := s.Get(u)
 		f := &fetched{st: r.Status}
 		if r.Status == 200 {
 			facts, err := Project(r.Body, a.keys)
@@ -731,7 +830,6 @@ func Main(args []string) error {
 			}
 			f.facts = facts
 		}
-		cache[u] = f
 		return f
 	}
 	factsJSON := func(fs []Fact) [][6]string {
@@ -746,6 +844,7 @@ func Main(args []string) error {
 	scen, nsig, nind, nmulti := 0, 0, 0, 0
 	keysSeen := map[string]int{}
 	statuses := map[string]int{}
+	reqs := make([]*request, len(gens))
 	for id, g := range gens {
 		a := assets[g.Asset]
 		if a == nil {
@@ -765,13 +864,64 @@ func Main(args []string) error {
 		}
 		q.order = r.Perm(len(g.Parts))
 		distinct[keyOf(g)] = true
-		w.Emit(tr.E{"ev": "cfg", "id": id, "asset": g.Asset, "amp": a.path + "/" + a.mpd, "mode": g.Mode, "parts": g.Parts, "c": q.c,
+		reqs[id] = q
+	}
+	// every MPD that will be needed (configuration, and configuration without each given key), fetched once, on 4 workers
+	{
+		type job struct {
+			u   string
+			a   *vodAsset
+			drm bool
+		}
+		var jobs []job
+		seen := map[string]bool{}
+		for _, q := range reqs {
+			for _, now := range nows {
+				us := []string{q.url("", now)}
+				for _, p := range q.g.Parts {
+					us = append(us, q.url(p.K, now))
+				}
+				for _, u := range us {
+					if q.c.Drm != "" {
+						u = "drm!" + u
+					}
+					if !seen[u] {
+						seen[u] = true
+						jobs = append(jobs, job{u, q.a, q.c.Drm != ""})
+					}
+				}
+			}
+		}
+		res := make([]*fetched, len(jobs))
+		var wg sync.WaitGroup
+		for g := 0; g < *workers; g++ {
+			wg.Add(1)
+			go func(g int) {
+				defer wg.Done()
+				for i := g; i < len(jobs); i += *workers {
+					res[i] = get(strings.TrimPrefix(jobs[i].u, "drm!"), jobs[i].a, jobs[i].drm)
+				}
+			}(g)
+		}
+		wg.Wait()
+		for i, j := range jobs {
+			cache[j.u] = res[i]
+		}
+		nreq = len(jobs)
+	}
+	for id, q := range reqs {
+		g, a := q.g, q.a
+		w.Emit(tr.E{"ev": "hdr", "id": id, "asset": g.Asset, "amp": a.path + "/" + a.mpd, "mode": g.Mode, "parts": g.Parts, "c": q.c,
 			"e": tr.E{"mode": g.Mode, "segMin": a.segMin, "segMax": a.segMax, "vas": a.vas, "vodId": a.vodID, "vodUtc": a.vodUtc,
-				"host": host, "url": q.urlParts("")}})
+				"host": host, "url": q.urlParts(""), "drmScheme": drmScheme(q.c.Drm)}})
 		for ti, now := range nows {
 			scen++
 			u := q.url("", now)
-			f := fetch(u, a)
+			pre := ""
+			if q.c.Drm != "" {
+				pre = "drm!"
+			}
+			f := fetch(pre+u, a)
 			statuses[strconv.Itoa(f.st)]++
 			var sig []Fact
 			for _, x := range f.facts {
@@ -793,7 +943,7 @@ func Main(args []string) error {
 			}
 			for _, p := range g.Parts {
 				bu := q.url(p.K, now)
-				b := fetch(bu, a)
+				b := fetch(pre+bu, a)
 				e := tr.E{"ev": "ind", "id": id, "t": ti + 1, "key": p.K, "st": b.st, "perr": b.err, "burl": bu}
 				if b.st == 200 && b.err == "" {
 					d, common, modper := diffFor(p.K, f.facts, b.facts)
